@@ -100,6 +100,9 @@ class DnsRecordDnskey(ParsableBase, Serializable):
             exponent_length = key_parser['exponent_length_two_octets']
         key_parser.parse_mpint('public_exponent', exponent_length)
         key_parser.parse_mpint('modulus', key_parser.unparsed_length)
+        for name in ('public_exponent', 'modulus'):
+            if key_parser[name] == 0:
+                raise InvalidValue(key_parser[name], cls, name)
 
         return PublicKey.from_params(PublicKeyParamsRsa(
             public_exponent=key_parser['public_exponent'],
@@ -150,6 +153,8 @@ class DnsRecordDnskey(ParsableBase, Serializable):
 
         mpint_length = 64 + key_parser['t'] * 8
         key_parser.parse_mpint('p', mpint_length)
+        if key_parser['p'] >> (8 * (mpint_length - 1)) == 0:  # t is composed from the size of p
+            raise InvalidValue(key_parser['p'], cls, 'p')
         key_parser.parse_mpint('g', mpint_length)
         key_parser.parse_mpint('y', mpint_length)
 
@@ -214,7 +219,7 @@ class DnsRecordDnskey(ParsableBase, Serializable):
             key_composer.compose_numeric(exponent_length, 1)
 
         key_composer.compose_mpint(key_params.public_exponent, exponent_length)
-        key_composer.compose_mpint(key_params.modulus, key.key_size // 8)
+        key_composer.compose_mpint(key_params.modulus, (key_params.modulus.bit_length() + 7) // 8)
 
     @staticmethod
     def _compose_public_key_ecdsa(key_composer, key):
@@ -231,7 +236,7 @@ class DnsRecordDnskey(ParsableBase, Serializable):
     @staticmethod
     def _compose_public_key_dss(key_composer, key):
         key_params = key.params
-        key_size = key.key_size // 8
+        key_size = (key_params.prime.bit_length() + 7) // 8
 
         key_composer.compose_numeric((key_size - 64) // 8, 1)
         key_composer.compose_mpint(key_params.order, 20)
